@@ -97,13 +97,13 @@ def run_c04(ck, fb, fbd):
     if not ed:
         raise AnalysisBroken("anchor vanished: TopologyKernel::enable_deferred_deletion")
     ed = ed[0]
-    need_names(ed, ["_enable"], fb, "C04.leave")
+    pen = ed.d["params"][0]["n"]
     calls = [(b, i) for b, i, x in ed.nodes(("call",)) if x.get("u") == gc.id]
     writes = [pos for pos, node, kind, arg in mode_changes(ed) if kind == "write"]
     ok = False
     if calls and writes:
         at = {(estr(cn), pol) for cn, pol, e in ed.facts(calls[0][0])}
-        ok = at == {("deferred_deletion_", True), ("_enable", False)} and not ed.dominates(writes[0], calls[0])
+        ok = at == {("deferred_deletion_", True), (pen, False)} and not ed.dominates(writes[0], calls[0])
     (ck.ok if ok else lambda r, w, t: ck.violate(r, w, t, "C04.leave"))("C04.leave", ed.where, "enable_deferred_deletion calls collect_garbage() exactly under (deferred_deletion_ && !_enable), before writing the flag")
     # (4) StatusAttrib::garbage_collection
     ck.rule("C04.status", "StatusAttrib::garbage_collection deletes status-marked edges/faces/cells only when not already deleted, establishes bottom-up incidences before the manifoldness pass, remaps tracked handles only when valid, from maps sized before collect_garbage(), and collects on every path")
@@ -240,7 +240,8 @@ def run_c09(ck, fb, fbd):
     if not ad:
         raise AnalysisBroken("anchor vanished: TopologyKernel::adjacent_halfface_in_cell")
     ad = ad[0]
-    need_names(ad, ["hfh", "idx", "heh", "_halfFaceHandle", "_halfEdgeHandle", "hasHalfedge", "hasOppHalfedge"], fb, "C09.adjacent")
+    need_names(ad, ["hfh", "idx", "heh", "hasHalfedge", "hasOppHalfedge"], fb, "C09.adjacent")
+    phf, phe = ad.d["params"][0]["n"], ad.d["params"][1]["n"]
     cand = []
     for b, i, x in ad.tops():
         a = as_assign(x)
@@ -250,10 +251,10 @@ def run_c09(ck, fb, fbd):
         raise AnalysisBroken("C09: adjacent_halfface_in_cell: candidate sites not recognised (%d)" % len(cand))
     for b, x in cand:
         at = {(estr(cn), pol) for cn, pol, e in ad.facts(b)}
-        need = [("(opposite_halfedge_handle(heh) == _halfEdgeHandle)", True), ("(hfh != opposite_halfface_handle(_halfFaceHandle))", True), ("(hfh == _halfFaceHandle)", False)]
+        need = [("(opposite_halfedge_handle(heh) == %s)" % phe, True), ("(hfh != opposite_halfface_handle(%s))" % phf, True), ("(hfh == %s)" % phf, False)]
         ok = all(nd in at for nd in need)
         (ck.ok if ok else lambda r, w, t: ck.violate(r, w, t, "C09.adjacent:%s" % estr(x)[:12]))("C09.adjacent", ad.loc(x), "'%s' happens only for a halfface containing the opposite halfedge that is neither the given halfface nor its opposite" % estr(x))
     # the legacy flip: halfedge replaced by its opposite only if the halfface contains the opposite and not the halfedge itself
-    flips = [(b, x) for b, i, x in ad.tops() if as_assign(x) and estr(as_assign(x)[0]) == "_halfEdgeHandle"]
+    flips = [(b, x) for b, i, x in ad.tops() if as_assign(x) and estr(as_assign(x)[0]) == phe]
     ok = bool(flips) and all({("hasHalfedge", False), ("hasOppHalfedge", True)} <= {(estr(cn), pol) for cn, pol, e in ad.facts(b)} for b, x in flips)
     (ck.ok if ok else lambda r, w, t: ck.violate(r, w, t, "C09.adjacent:flip"))("C09.adjacent", ad.where, "the halfedge is flipped only when the halfface contains its opposite but not the halfedge itself")
